@@ -38,14 +38,19 @@ def frame_unchanged(before, after, label, check_group=True):
 
 class NoMutate(Harness):
     prop = "C06"
-    def __init__(self, inner, operands, allow_alias=False, group_exception=False):
+    def __init__(self, inner, operands, allow_alias=False, group_exception=False, prep=None):
         self.inner = inner; self.operands = operands; self.allow_alias = allow_alias; self.group_exception = group_exception
-        self.name = "C06." + inner.name.replace(".", "_", 1)
+        self.prep = prep
+        self.name = "C06." + inner.name.replace(".", "_", 1) + (".operands_from_" + prep if prep else "")
         self.opname = inner.opname
-        self.bounds = inner.bounds; self.symbolic = inner.symbolic; self.choice_dims = inner.choice_dims
+        self.bounds = dict(inner.bounds, operands="results of an earlier operation (deep copies: columns own their memory)" if prep else
+                           "freshly constructed (columns are views of the arrays given)")
+        self.symbolic = inner.symbolic; self.choice_dims = inner.choice_dims
         self.goals = inner.goals
     def build(self, ctx):
-        return self.inner.build(ctx)
+        inp = self.inner.build(ctx)
+        if self.prep: inp["prep"] = self.prep
+        return inp
     def regions(self, inp):
         return {}
     def spec(self, inp, out):
@@ -136,7 +141,14 @@ def harnesses(tier):
             hs.append(NoMutate(c02.Subset(m, k, N), [("data", "recv")]))
         hs.append(NoMutate(c02.Subset("filter", k, N, "kw"), [("data", "recv")]))
         hs.append(NoMutate(c03.Sort([k], N), [("data", "recv")]))
-        if k in ("T", "U", "f"): hs.append(NoMutate(c03.Sort([k], N, prep="deepcopy"), [("data", "recv")]))
+        if k in ("T", "U", "f"):
+            hs.append(NoMutate(c03.Sort([k], N), [("data", "recv")], prep="deepcopy"))
+            if not q or k == "U":
+                for m in ("unique", "drop_na"):
+                    hs.append(NoMutate(c02.Subset(m, k, N), [("data", "recv")], prep="deepcopy"))
+                hs.append(NoMutate(c04.Group("aggregate", [k], N), [("data", "recv")], group_exception=True, prep="deepcopy"))
+                for j in c05.JOINS:
+                    hs.append(NoMutate(c05.Join(j, [k], 2, 2), [("a", "a"), ("b", "b")], prep="deepcopy"))
         hs.append(NoMutate(c04.Group("aggregate", [k], N), [("data", "recv")], group_exception=True))
         hs.append(NoMutate(c04.Group("modify", [k], N), [("data", "recv")], group_exception=True))
         for j in c05.JOINS:
